@@ -43,6 +43,8 @@ def gen_cases(rng, spec, n):
             c = kgen.gen_chain(rng, i)
         elif base == 'decided':
             c = kgen.gen_decided(rng, i)
+        elif base == 'launcher':
+            c = kgen.gen_launcher(rng, i)
         elif base == 'ack':
             c = kgen.gen_ack(rng, i)
         elif base == 'untilfail':
@@ -106,6 +108,8 @@ def _run_cases(cases, oracles, nontrivial, attribute=None):
         for n_ in runners[c.cid].notes:
             if n_[0] == 'cond-form':
                 hist[f'shape:condition operands as {n_[1]}' + (' (empty)' if n_[2] == 0 else '')] += 1
+            elif n_[0] == 'retev':
+                hist[f'shape:process returns an event object ({n_[1]})'] += 1
             elif n_[0] == 'exit-unwinding':
                 hist[f'shape:with-block left by {n_[1]}' + (f'({n_[2]})' if n_[1] == 'Interrupt' else '') + ' handled outside it'] += 1
             elif n_[0] == 'evicted':
